@@ -197,16 +197,19 @@ def parseString (fl : PFlags) (b : Bytes) : PR :=
           else stringLoop body
     | [] => .err true
 
+/-- `d.nest`: entering an array or object at nesting depth `depth` is refused beyond maxNestingDepth -/
+def nestOK (depth : Nat) : Bool := depth + 1 ≤ Gen.c_json_maxNestingDepth
+
 mutual
--- go: json.parseValue
-def parseValue (fl : PFlags) : Nat → Bytes → PR
+-- go: json.parseValue   (`depth` = decoder.depth: the number of arrays and objects enclosing the value)
+def parseValue (fl : PFlags) (depth : Nat) : Nat → Bytes → PR
   | 0, _ => .err true
   | fuel + 1, b =>
     match b with
     | [] => .err true
     | c :: _ =>
-      if c == 0x7b then parseObject fl fuel b
-      else if c == 0x5b then parseArray fl fuel b
+      if c == 0x7b then parseObject fl depth fuel b
+      else if c == 0x5b then parseArray fl depth fuel b
       else if c == 0x22 then parseString fl b
       else if c == 0x6e then parseLit b [0x6e, 0x75, 0x6c, 0x6c] .null
       else if c == 0x74 then parseLit b [0x74, 0x72, 0x75, 0x65] .true_
@@ -214,14 +217,14 @@ def parseValue (fl : PFlags) : Nat → Bytes → PR
       else if c == 0x2d || isDigit c then parseNumber b
       else .err false
 -- go: json.parseArray
-def parseArray (fl : PFlags) : Nat → Bytes → PR
+def parseArray (fl : PFlags) (depth : Nat) : Nat → Bytes → PR
   | 0, _ => .err true
   | fuel + 1, b =>
     if b.length < 2 then .err true
     else match b with
-      | _ :: rest => arrayLoop fl fuel rest 0
+      | _ :: rest => if !nestOK depth then .err false else arrayLoop fl (depth + 1) fuel rest 0
       | [] => .err true
-def arrayLoop (fl : PFlags) : Nat → Bytes → Nat → PR
+def arrayLoop (fl : PFlags) (depth : Nat) : Nat → Bytes → Nat → PR
   | 0, _, _ => .err true
   | fuel + 1, b, i =>
     let b := skipSpaces b
@@ -243,18 +246,18 @@ def arrayLoop (fl : PFlags) : Nat → Bytes → Nat → PR
         | none => .err false
         | some [] => .err true
         | some b3 =>
-          match parseValue fl fuel b3 with
-          | .ok _ r => arrayLoop fl fuel r (i + 1)
+          match parseValue fl depth fuel b3 with
+          | .ok _ r => arrayLoop fl depth fuel r (i + 1)
           | .err e => .err e
 -- go: json.parseObject
-def parseObject (fl : PFlags) : Nat → Bytes → PR
+def parseObject (fl : PFlags) (depth : Nat) : Nat → Bytes → PR
   | 0, _ => .err true
   | fuel + 1, b =>
     if b.length < 2 then .err true
     else match b with
-      | _ :: rest => objectLoop fl fuel rest 0
+      | _ :: rest => if !nestOK depth then .err false else objectLoop fl (depth + 1) fuel rest 0
       | [] => .err true
-def objectLoop (fl : PFlags) : Nat → Bytes → Nat → PR
+def objectLoop (fl : PFlags) (depth : Nat) : Nat → Bytes → Nat → PR
   | 0, _, _ => .err true
   | fuel + 1, b, i =>
     let b := skipSpaces b
@@ -285,8 +288,8 @@ def objectLoop (fl : PFlags) : Nat → Bytes → Nat → PR
             | x :: r2 =>
               if x != 0x3a then .err false
               else
-                match parseValue fl fuel (skipSpaces r2) with
-                | .ok _ r3 => objectLoop fl fuel r3 (i + 1)
+                match parseValue fl depth fuel (skipSpaces r2) with
+                | .ok _ r3 => objectLoop fl depth fuel r3 (i + 1)
                 | .err e => .err e
 end
 
@@ -295,7 +298,7 @@ def fuelFor (b : Bytes) : Nat := 3 * b.length + 8
 -- go: json.Valid
 def valid (data : Bytes) : Bool :=
   let data := skipSpaces data
-  match parseValue (internalParseFlags data) (fuelFor data) data with
+  match parseValue (internalParseFlags data) 0 (fuelFor data) data with
   | .ok _ rest => (skipSpaces rest).isEmpty
   | .err _ => false
 
